@@ -2,6 +2,7 @@ import Driver.Util
 import NutsModel.C10.DidStore
 import NutsModel.C10.Shelves
 import NutsModel.C10.DocShelves
+import NutsModel.C10.ReadPath
 import NutsModel.Facts.C10
 open Lean Nuts.Drv Nuts.C10 Nuts
 
@@ -40,6 +41,7 @@ def cfg : Cfg := cfgOf (fun _ l => l) Nuts.Facts.C10.mergeSortedFields
 structure St where
   last : String := "no-seq"
   raw : String := "no-seq"
+  rf : String := "no-seq"
 
 /-- FNV-1a 64 over the UTF-8 bytes (same function in the Go harness): short names for content hashes -/
 def fnv64 (s : String) : UInt64 :=
@@ -158,12 +160,41 @@ def observe (b : Both) (evs : List Event) (times : List Nat) (probes : List PSpe
       p := p.probe "active:" actS
       for v in List.range (mine.length + 2) do
         p := p.probe s!"hist{v}:" (showHistory known (historySince (s.get d) v))
+      let hn := match historySinceInt b.blob (s.get d) (-1 - ((mine.length % 3 : Nat) : Int)) with
+        | .err e => "err:" ++ e | .panic e => "panic:" ++ e | .ok l => s!"ok {l.length}"
+      p := p.probe "histneg:" hn
     else
       p := p.probe "conf:" confS
       p := p.probe "iter:" iterS
       p := p.probe "active:" actS
     p := p.lit s!"conflicted={(conflictedOf s d).isSome}"
   return p.render
+
+/-- every read entry point with a failing k-th Get (`vReadFaults` in the harness) -/
+def showRFault (b : Both) (evs : List Event) (times : List Nat) : String :=
+  let s := b.s
+  let dids := (evs.map (·.doc.id)).eraseDups.toArray.qsort (· < ·) |>.toList
+  let D := dids.length
+  let j := String.intercalate ","
+  let cfgs := j ([1, 2, 3, 4].map fun k => faultClass (configureGets s) k)
+  let its := j ([1, 2, 3, 2 * D, 2 * D + 1].map fun k => faultClass (iterateGets s) k)
+  let head := s!"rfault cc1={faultClass 1 1} dc1={faultClass 1 1} cc2={faultClass 1 2} dc2={faultClass 1 2} cfg=[{cfgs}] iter=[{its}]"
+  let per := dids.map fun d =>
+    let n := (evs.filter (fun e => e.doc.id == d)).length
+    let sh := (alGet b.sh d).getD {}
+    let mds : List (Option ResolveMeta) :=
+      [none, some { allowDeactivated := true }] ++
+      (match times with
+       | [] => []
+       | t0 :: _ => [some { time := some t0 }, some { time := some (times.getD (times.length / 2) 0), allowDeactivated := true }])
+    let rs := mds.zipIdx.flatMap fun (rm, vi) =>
+      [1, 2, 3, 4, 5, n + 2].map fun k =>
+        let c := match sResolveF sh rm k with | .err "db" => "db" | _ => "same"
+        s!"{vi}.{k}:{c}"
+    let hs := [(0, 1), (0, 2), (0, n + 1), (0, n + 2), (n - 1, 1), (n - 1, 2), (n - 1, 3), (n, 1), (n, 2)].map fun (v, k) =>
+      s!"{v}.{k}:{faultClass (historyGets (s.get d) v) k}"
+    s!"DID {d} res=[{j rs}] hist=[{j hs}]"
+  String.intercalate " | " (head :: per)
 
 /-- 51 / 52: this Add overlaps the next arrival and is parked before its 1st / 2nd write transaction until the next
     Add has completed. The event list is read, changed and written inside ONE write transaction
@@ -217,11 +248,12 @@ def step (st : St) (j : Json) : St × List String :=
     | .ok b =>
       let o := observe b evs.toList times probes false
       -- restart: the durable state survives, the conflicted cache is rebuilt from the shelves
-      ({ last := observe { b with s := reload b.s } evs.toList times probes true, raw := showRaw b }, [o])
-    | .err e => ({ last := "err:" ++ e, raw := "err:" ++ e }, ["err:" ++ e])
-    | .panic e => ({ last := "panic:" ++ e, raw := "panic:" ++ e }, ["panic:" ++ e])
+      ({ last := observe { b with s := reload b.s } evs.toList times probes true, raw := showRaw b, rf := showRFault b evs.toList times }, [o])
+    | .err e => ({ last := "err:" ++ e, raw := "err:" ++ e, rf := "err:" ++ e }, ["err:" ++ e])
+    | .panic e => ({ last := "panic:" ++ e, raw := "panic:" ++ e, rf := "panic:" ++ e }, ["panic:" ++ e])
   | "again" => (st, [st.last])
   | "raw" => (st, [st.raw])
+  | "rfault" => (st, [st.rf])
   | o => (st, ["bad-op:" ++ o])
 
 end Nuts.Drv.C10
